@@ -57,7 +57,77 @@ var constBuiltin = map[string]bool{"abs": true, "min": true, "max": true, "clamp
 	"asinh": true, "acosh": true, "atanh": true, "faceForward": true, "reflect": true, "refract": true, "modf": true, "frexp": true, "quantizeToF16": true}
 
 // ok checks const-expression validity of a freshly built node; returns the node or nil.
+func isCompound(e Expr) bool {
+	for {
+		switch x := e.(type) {
+		case *Paren:
+			e = x.X
+			continue
+		case *Materialize:
+			e = x.X
+			continue
+		case *Binary, *Unary:
+			return true
+		case *Builtin:
+			return x.Name == "select"
+		}
+		return false
+	}
+}
+
+// compoundConstish: a constant-ish binary / select expression (backends print such trees inline, not as baked temporaries).
+func compoundConstish(e Expr) bool {
+	for {
+		switch x := e.(type) {
+		case *Paren:
+			e = x.X
+			continue
+		case *Materialize:
+			e = x.X
+			continue
+		case *Binary:
+			return Constish(x)
+		case *Builtin:
+			return x.Name == "select" && Constish(x)
+		}
+		return false
+	}
+}
+
 func (g *Gen) ok(e Expr) Expr {
+	if b, isB := e.(*Builtin); isB && b.Name == "select" && !g.on("fn.select") {
+		return nil
+	}
+	// postfix (swizzle / index / member) applied to a parenthesised operator expression
+	switch x := e.(type) {
+	case *Swiz:
+		if isCompound(x.X) && !g.on("postfix-on-compound") {
+			return nil
+		}
+		if _, isCons := x.X.(*Cons); isCons && len(x.Comps) > 1 && !g.on("swizzle.on-constructor") {
+			return nil
+		}
+	case *Index:
+		if isCompound(x.X) && !g.on("postfix-on-compound") {
+			return nil
+		}
+	case *Field:
+		if isCompound(x.X) && !g.on("postfix-on-compound") {
+			return nil
+		}
+	}
+	// finding F79 (MSL): inline-printed constant sub-expressions lose their parentheses under an enclosing operator / postfix
+	switch e.(type) {
+	case *Binary, *Unary, *Swiz, *Index, *Field:
+		for _, cs := range ExprSlots(e) {
+			if compoundConstish(*cs) {
+				if !g.on("inline-const-precedence") {
+					return nil
+				}
+				g.feat("inline-const-precedence")
+			}
+		}
+	}
 	c := IsConst(e)
 	if c && g.Cfg.ConstOK != nil && !g.Cfg.ConstOK(e) {
 		return nil
@@ -585,6 +655,9 @@ func (g *Gen) genInt(t *Type, depth int) Expr {
 	case 8:
 		return g.litOf(t)
 	default:
+		if !g.on("fn.dot.int") {
+			return g.litOf(t)
+		}
 		n := r.Range(2, 4)
 		g.feat("fn.dot.int")
 		vt := g.U.Vec(n, t)
@@ -754,6 +827,9 @@ func (g *Gen) genFloatLike(t *Type, depth int) Expr {
 		return &Unary{Op: "-", X: a(), Ty: t}
 	case 4:
 		name := fExact1[r.Intn(len(fExact1))]
+		if !g.on("fn." + name) {
+			name = "floor"
+		}
 		g.feat("fn." + name + "." + t.ShapeName())
 		return &Builtin{Name: name, Args: []Expr{a()}, Ty: t}
 	case 5:
@@ -1140,7 +1216,10 @@ func (g *Gen) ptrArg(pt *Type, callee *Func, used map[*Var]bool) Expr {
 			} else if g.on("ptr.subobject") {
 				// pointer to a member / element of a local composite
 				if q, ok := g.subPath(path{e: &Ref{V: v}, t: v.Ty, writable: true, root: v}, func(x *Type) bool { return x == pt.Elem }, 0); ok {
-					if !containsVecIndex(q.e) && (g.on("ptr.mat-column") || !containsMatIndex(q.e)) {
+					if !containsVecIndex(q.e) && (g.on("ptr.mat-column") || !containsMatIndex(q.e)) && (g.on("ptr.dynamic-element") || !containsDynIndex(q.e)) {
+						if containsDynIndex(q.e) {
+							g.feat("ptr.dynamic-element")
+						}
 						if containsMatIndex(q.e) {
 							g.feat("ptr.mat-column")
 						}
@@ -1233,4 +1312,26 @@ func hasRef(e Expr) bool {
 		}
 	})
 	return found
+}
+
+// containsDynIndex: the reference expression indexes something with a non-literal index.
+func containsDynIndex(e Expr) bool {
+	switch e := e.(type) {
+	case *Index:
+		switch i := e.I.(type) {
+		case *Lit:
+		case *Materialize:
+			if _, ok := i.X.(*Lit); !ok {
+				return true
+			}
+		default:
+			return true
+		}
+		return containsDynIndex(e.X)
+	case *Field:
+		return containsDynIndex(e.X)
+	case *Paren:
+		return containsDynIndex(e.X)
+	}
+	return false
 }
